@@ -947,3 +947,152 @@ func kvOf(cl *ast.CompositeLit, key string) ast.Expr {
 	}
 	return nil
 }
+
+// ---- LEX-7: interval splitting / merging keeps every piece ----
+
+func ruleLEX7(c *Ctx) {
+	const rule = "LEX-7"
+	p := c.Prog
+	pk, fd := p.FuncDecl("internal/lexergen/rang3", "Normalize")
+	if fd == nil {
+		c.unres(rule, "rang3.Normalize", "", "function not found")
+		return
+	}
+	info := pk.TypesInfo
+	nCases := 0
+	ast.Inspect(fd.Body, func(n ast.Node) bool {
+		cc, ok := n.(*ast.CaseClause)
+		if !ok || cc.List == nil {
+			return true
+		}
+		// pieces declared in this case
+		var pieces []types.Object
+		for _, s := range cc.Body {
+			if as, ok := s.(*ast.AssignStmt); ok && as.Tok == token.DEFINE && len(as.Lhs) == 1 {
+				if cl, ok := as.Rhs[0].(*ast.CompositeLit); ok && typeIs(info.TypeOf(cl), "lexergen/rang3", "Range") {
+					pieces = append(pieces, info.Defs[as.Lhs[0].(*ast.Ident)])
+				}
+			}
+		}
+		if len(pieces) == 0 {
+			return true
+		}
+		nCases++
+		pushed := map[types.Object]bool{}
+		for _, s := range cc.Body {
+			ast.Inspect(s, func(m ast.Node) bool {
+				if call, ok := m.(*ast.CallExpr); ok && len(call.Args) == 1 {
+					if sel, ok := call.Fun.(*ast.SelectorExpr); ok && sel.Sel.Name == "Push" {
+						pushed[usesObj(info, call.Args[0])] = true
+					}
+				}
+				return true
+			})
+		}
+		var missing []string
+		for _, pc := range pieces {
+			if !pushed[pc] {
+				missing = append(missing, pc.Name())
+			}
+		}
+		construct := "rang3.Normalize/case(" + truncate(exprString(cc.List[0]), 40) + ")"
+		c.check(len(missing) == 0, rule, construct, p.Pos(cc.Pos()), fmt.Sprintf("all %d pieces produced by the split are put back on the heap", len(pieces)),
+			fmt.Sprintf("piece(s) %v produced by the split are not put back on the heap: a later range overlapping them is never split against them and overlapping transitions reach the DFA", missing))
+		return true
+	})
+	if nCases < 4 {
+		c.unres(rule, "rang3.Normalize/cases", "", "only %d splitting cases found; the four geometric cases were confirmed by hand", nCases)
+	}
+	// Flatten: a merged range ends at the larger of the two ends
+	pk2, fl := p.FuncDecl("internal/lexergen/rang3", "Flatten")
+	if fl == nil {
+		c.unres(rule, "rang3.Flatten", "", "function not found")
+		return
+	}
+	info2 := pk2.TypesInfo
+	okMax := false
+	found := false
+	ast.Inspect(fl.Body, func(n ast.Node) bool {
+		ifs, ok := n.(*ast.IfStmt)
+		if !ok || !strings.Contains(exprString(ifs.Cond), ".Touches(") {
+			return true
+		}
+		ast.Inspect(ifs.Body, func(m ast.Node) bool {
+			cl, ok := m.(*ast.CompositeLit)
+			if !ok || !typeIs(info2.TypeOf(cl), "lexergen/rang3", "Range") {
+				return true
+			}
+			found = true
+			e := kvOf(cl, "E")
+			if e == nil && len(cl.Elts) == 2 {
+				e = cl.Elts[1]
+			}
+			if call, ok := e.(*ast.CallExpr); ok && len(call.Args) == 2 && exprString(call.Fun) == "max" {
+				a, b := exprString(call.Args[0]), exprString(call.Args[1])
+				if strings.HasSuffix(a, ".E") && strings.HasSuffix(b, ".E") && a != b {
+					okMax = true
+				}
+			}
+			return true
+		})
+		return true
+	})
+	if !found {
+		c.unres(rule, "rang3.Flatten/merge", p.Pos(fl.Pos()), "the merge of touching ranges was not found")
+		return
+	}
+	c.check(okMax, rule, "rang3.Flatten/merge", p.Pos(fl.Pos()), "two touching ranges merge into one ending at the larger end (the input is sorted by lower bound only)",
+		"a merged range does not end at max(tip.E, r.E): a range nested inside the previous one shrinks it and code points are lost")
+}
+
+// ---- LEX-8: splitting a range keeps every owner of every piece ----
+
+func ruleLEX8(c *Ctx) {
+	const rule = "LEX-8"
+	p := c.Prog
+	pk, fd := p.FuncDecl("internal/lexergen/mode", "normalizeInputs")
+	if fd == nil {
+		c.unres(rule, "mode.normalizeInputs", "", "function not found")
+		return
+	}
+	info := pk.TypesInfo
+	// the callback handed to rang3.Normalize
+	var cb *ast.FuncLit
+	ast.Inspect(fd.Body, func(n ast.Node) bool {
+		if call, ok := n.(*ast.CallExpr); ok && fullName(calleeFunc(info, call)) == modPath+"/internal/lexergen/rang3.Normalize" && len(call.Args) == 2 {
+			cb, _ = call.Args[1].(*ast.FuncLit)
+		}
+		return true
+	})
+	if cb == nil {
+		c.unres(rule, "mode.normalizeInputs/callback", p.Pos(fd.Pos()), "the split callback was not found")
+		return
+	}
+	n, bad := 0, ""
+	ast.Inspect(cb.Body, func(m ast.Node) bool {
+		as, ok := m.(*ast.AssignStmt)
+		if !ok || len(as.Lhs) != 1 {
+			return true
+		}
+		ix, ok := as.Lhs[0].(*ast.IndexExpr)
+		if !ok {
+			return true
+		}
+		if _, isMap := info.TypeOf(ix.X).Underlying().(*types.Map); !isMap {
+			return true
+		}
+		n++
+		call, ok := as.Rhs[0].(*ast.CallExpr)
+		if !ok || builtinName(info, call) != "append" || !sameExpr(call.Args[0], as.Lhs[0]) {
+			bad = fmt.Sprintf("%s: `%s` overwrites the owners of a piece instead of appending to them: NFA states that already own an identical range lose their transition", p.Pos(as.Pos()), nodeText(as))
+		}
+		return true
+	})
+	c.check(bad == "" && n >= 3, rule, "mode.normalizeInputs/callback/owners-accumulate", p.Pos(cb.Pos()),
+		fmt.Sprintf("all %d updates of the range->owners map append to the existing owners", n), bad)
+	// every owner's transition on the original range is replaced by transitions on all pieces
+	adds := findCalls(info, cb.Body, false, func(fn *types.Func, _ *ast.CallExpr) bool { return fn != nil && fn.Name() == "AddTransition" })
+	rem := findCalls(info, cb.Body, false, func(fn *types.Func, _ *ast.CallExpr) bool { return fn != nil && fn.Name() == "Remove" })
+	c.check(len(adds) == 3 && len(rem) >= 1, rule, "mode.normalizeInputs/callback/relabel", p.Pos(cb.Pos()),
+		"the original transition is removed and re-added on each of the (up to three) pieces", fmt.Sprintf("the callback re-adds %d transitions and removes %d", len(adds), len(rem)))
+}
